@@ -1120,10 +1120,15 @@ impl Transaction {
                 if slip.utxoset_key == [0; UTXO_KEY_LENGTH] {
                     return false;
                 }
-                if !blockchain.is_slip_unlocked(&slip.utxoset_key) {
+                // (a node that is still syncing has no ledger to look the input up in: like the utxoset
+                // check at the end of this function, the lookup waits until the node validates against it)
+                if validate_against_utxo && !blockchain.is_slip_unlocked(&slip.utxoset_key) {
                     return false;
                 }
-                let utxo_slip = Slip::parse_slip_from_utxokey(&slip.utxoset_key).unwrap();
+                let utxo_slip = match Slip::parse_slip_from_utxokey(&slip.utxoset_key) {
+                    Ok(utxo_slip) => utxo_slip,
+                    Err(_) => return false,
+                };
                 if utxo_slip.amount != slip.amount {
                     return false;
                 }
